@@ -10,6 +10,7 @@ package main
 
 import (
 	"fmt"
+	"go/constant"
 	"go/token"
 	"go/types"
 	"sort"
@@ -162,6 +163,56 @@ func edgeFacts(iff *ssa.If, idx int) []string {
 		if xq, yq := termQ(t.X, true), termQ(t.Y, true); xq != x || yq != y {
 			out = append(out, xq+" "+op.String()+" "+yq)
 			out = append(out, yq+" "+flipOp[op].String()+" "+xq)
+		}
+		// integer equivalences: x > k ⇔ x ≥ k+1, and for non-negative x: x != 0 ⇔ x > 0
+		for _, side := range []struct {
+			v, k ssa.Value
+			op   token.Token
+		}{{t.X, t.Y, op}, {t.Y, t.X, flipOp[op]}} {
+			kc, ok := canon(side.k).(*ssa.Const)
+			if !ok || kc.Value == nil || kc.Value.Kind() != constant.Int {
+				continue
+			}
+			k, exact := constant.Int64Val(kc.Value)
+			bt, isInt := side.v.Type().Underlying().(*types.Basic)
+			if !exact || !isInt || bt.Info()&types.IsInteger == 0 {
+				continue
+			}
+			nonneg := bt.Info()&types.IsUnsigned != 0
+			if cl, ok := canon(side.v).(*ssa.Call); ok {
+				if kk := calleeKey(cl); kk == "builtin:len" || kk == "builtin:cap" {
+					nonneg = true
+				}
+			}
+			type ok2 struct {
+				op token.Token
+				k  int64
+			}
+			eq := []ok2{}
+			switch side.op {
+			case token.GTR:
+				eq = append(eq, ok2{token.GEQ, k + 1})
+			case token.GEQ:
+				eq = append(eq, ok2{token.GTR, k - 1})
+			case token.LSS:
+				eq = append(eq, ok2{token.LEQ, k - 1})
+			case token.LEQ:
+				eq = append(eq, ok2{token.LSS, k + 1})
+			}
+			if nonneg {
+				switch {
+				case side.op == token.NEQ && k == 0, side.op == token.GTR && k == 0, side.op == token.GEQ && k == 1:
+					eq = append(eq, ok2{token.NEQ, 0}, ok2{token.GTR, 0}, ok2{token.GEQ, 1})
+				case side.op == token.EQL && k == 0, side.op == token.LEQ && k == 0, side.op == token.LSS && k == 1:
+					eq = append(eq, ok2{token.EQL, 0}, ok2{token.LEQ, 0}, ok2{token.LSS, 1})
+				}
+			}
+			for _, e := range eq {
+				for _, vt := range []string{term(side.v), termQ(side.v, true)} {
+					ks := fmt.Sprint(e.k)
+					out = append(out, vt+" "+e.op.String()+" "+ks, ks+" "+flipOp[e.op].String()+" "+vt)
+				}
+			}
 		}
 	default:
 		s := term(cond)
